@@ -479,6 +479,19 @@ func checkC18(w *World, r *Report) {
 		check(a.leave, left, "every member of current\\new is handed to the leave handler", joined)
 		n := len(w.callsIn(a.handleMembers, EvCall("Except", except)))
 		r.Check(n == 2, "C18.R1", fname(a.handleMembers)+":two-differences", "exactly the two set differences are computed", site, fmt.Sprintf("%d Except calls", n))
+		// ... on every path: no snapshot is waved through on the strength of some summary of it (a size, a digest)
+		{
+			hg := w.FGI(a.handleMembers)
+			E := w.Nodes(hg, EvCall("Except", except), false)
+			all := true
+			for _, e := range members(E) {
+				if !hg.AfterEntry(setOf(len(hg.ins), e)) {
+					all = false
+				}
+			}
+			r.Check(all && anyOf(E), "C18.R1", fname(a.handleMembers)+":every-snapshot-is-diffed", "both set differences are computed for every snapshot (no path returns before them)", site,
+				"a path through the handler returns without comparing the snapshot with the view: a snapshot it takes for a repeat is dropped, its joins and leaves are never reported and Members() stays behind")
+		}
 	}
 	// R2
 	add := w.Method("cluster", "MemberSet", "Add")
@@ -2083,6 +2096,41 @@ func checkC20(w *World, r *Report) {
 	importRules(w, r, checkC18, "C18", "C20.R6", func(o *Obligation) bool { return o.Rule == "C18.R4" })
 	// R2, R3, R5: membership protocol of the provider (rules_cluster2.go)
 	checkC20Membership(w, r, recv, smT, addM)
+	// the member list belongs to one provider instance: a Producer value used for two clusters of one process, or a
+	// provider restarted by its supervisor, starts from its own empty list (the agent it reports to starts empty too)
+	{
+		okI, n := true, 0
+		detail := ""
+		for _, fn := range w.Funcs {
+			if !w.isLib(fn) || fnPkgPath(fn) != modPath+"/cluster" {
+				continue
+			}
+			for _, al := range w.allocsOf(fn, smT) {
+				fs, lit := w.litFields(al)
+				if !lit {
+					continue
+				}
+				n++
+				st, _ := smT.Underlying().(*types.Struct)
+				for i := 0; st != nil && i < st.NumFields(); i++ {
+					f := st.Field(i)
+					if pt, isPtr := f.Type().(*types.Pointer); !isPtr || pt.Elem().String() != modPath+"/cluster.MemberSet" {
+						continue
+					}
+					name := pinnedFieldName(smT, st, i)
+					v := fs[name]
+					if v == nil {
+						okI, detail = false, "SelfManaged."+name+" is not initialised where the provider is created"
+						continue
+					}
+					if p := w.pathOf(v); strings.HasPrefix(p, "FV:") || strings.HasPrefix(p, "P") || strings.HasPrefix(p, "G:") {
+						okI, detail = false, "SelfManaged."+name+" is "+p+", created outside the function that builds the provider: every provider made from that Producer shares it (an unreachable report at one node removes the member from another node's list, which never tells its agent)"
+					}
+				}
+			}
+		}
+		r.Check(okI && n > 0, "C20.R3", "SelfManaged:state-per-instance", "the member sets of a provider are created together with it", w.fnPos(recv), detail)
+	}
 	{
 		if gbh := w.Method("cluster", "MemberSet", "GetByHost"); gbh != nil {
 			hg := w.FGI(gbh)
